@@ -677,20 +677,24 @@ Example ws_fixed_on_witness :
   get_ws_host_port (with_f23 true) (B "tcp://127.0.0.1:65534") [] false = WOk (B "127.0.0.1:65535").
 Proof. vm_compute. auto. Qed.
 
-(* the URL branch never wraps either: the port is the URL's (<= 65535) or the scheme's *)
+(* the URL branch never wraps either: host and port are the URL's host name and its port
+   (<= 65535), or the scheme's port when the URL has none *)
 Theorem ws_url_spec v a u0 u g r : get_ws_host_port v a (u0 :: u) g = WOk r ->
-  exists hn n, (n <= 65535)%N /\ r = join_host_port (if g then B "0.0.0.0" else hn) (format_uint n).
+  exists scheme uh hn ps n,
+    url_parse (u0 :: u) = UOk scheme uh /\ url_split_host_port uh = (hn, ps) /\
+    (match ps with [] => scheme_to_port scheme = Some n | _ => parse_uint16 ps = Some n end) /\
+    (n <= 65535)%N /\ r = join_host_port (if g then B "0.0.0.0" else hn) (format_uint n).
 Proof.
   unfold get_ws_host_port, ws_finish. destruct (url_parse (u0 :: u)) as [| |scheme uh]; try discriminate.
   destruct (scheme_to_port scheme) as [pp|] eqn:SP; [|discriminate].
   assert (PP : (pp <= 65535)%N).
   { unfold scheme_to_port in SP. destruct (bytes_eqb scheme (B "http")); [inversion SP; lia|].
     destruct (bytes_eqb scheme (B "https")); [inversion SP; lia|discriminate]. }
-  destruct (url_split_host_port uh) as [hn ps]. destruct ps as [|p0 ps'].
-  - intros H; inversion H. eauto.
+  destruct (url_split_host_port uh) as [hn ps] eqn:US. destruct ps as [|p0 ps'].
+  - intros H; inversion H. exists scheme, uh, hn, [], pp. auto.
   - destruct (parse_uint16 (p0 :: ps')) as [n|] eqn:PU; [|discriminate].
-    apply parse_uint16_Some in PU. destruct PU as (_ & _ & LE).
-    intros H; inversion H. eauto.
+    pose proof PU as PU'. apply parse_uint16_Some in PU'. destruct PU' as (_ & _ & LE).
+    intros H; inversion H. exists scheme, uh, hn, (p0 :: ps'), n. auto.
 Qed.
 
 (* ---- getListenAddress ------------------------------------------------------------------------------------ *)
